@@ -329,8 +329,6 @@ val step :
   nat -> (nat -> nat) -> (nat -> nat) -> bool -> bool -> bool -> st -> action
   -> st option
 
-val capv : nat
-
 val peerv : nat -> nat
 
 val selv : nat -> nat
@@ -349,9 +347,11 @@ type aux = { tm : (nat -> tmode); cmap : (z * nat) list; nco : nat;
              cpend : (nat -> nat option); ctgt : (nat -> nat option);
              precan : nat list; cnull : (nat -> nat option); seen : nat list }
 
-type ast = { ms : st; ax : aux }
+type ast = { ms : st; ax : aux; acap : nat; fresh : bool }
 
 val aux0 : aux
+
+val capv : nat
 
 val ainit : ast
 
@@ -426,9 +426,13 @@ val eAGAIN_ : z
 
 val is_err : z -> bool
 
+val mstep : bool -> nat -> st -> action -> st option
+
 val mkplan : ast -> z list -> plan
 
-val exec : bool -> st -> action list -> st option
+val exec : bool -> nat -> st -> action list -> st option
+
+val is_cap : z list -> nat option
 
 val accept_ev : bool -> ast -> z list -> ast option
 
